@@ -182,6 +182,20 @@ func NewClientConn(cfg ConnCfg, tr *xport.ScriptConn, pool websocket.BufferPool)
 	return c, nil
 }
 
+// dialOver dials over tr, whose OnWrite responder the caller has installed
+// (the transport may already hold input that follows the 101 response).
+func dialOver(cfg ConnCfg, tr *xport.ScriptConn) (*websocket.Conn, error) {
+	d := websocket.Dialer{
+		NetDialContext:    func(ctx context.Context, network, addr string) (net.Conn, error) { return tr, nil },
+		ReadBufferSize:    cfg.ReadBuf,
+		WriteBufferSize:   cfg.WriteBuf,
+		EnableCompression: cfg.Compress,
+	}
+	c, _, err := d.Dial("ws://example.com/", nil)
+	tr.OnWrite = nil
+	return c, err
+}
+
 // NewConn creates a connection of the configured role over tr.  The
 // transport's input must be empty during the handshake; set it afterwards.
 func NewConn(cfg ConnCfg, tr *xport.ScriptConn, pool websocket.BufferPool) (*websocket.Conn, error) {
